@@ -361,10 +361,15 @@ func c04Existence(a *Anchors, r *core.Report) {
 // is followed by the matching drain (or is the meta hand-over: exit pushed to the meta process).
 func c04MetaAndSpawnDrain(a *Anchors, r *core.Report) {
 	rule := "C04.L2b every-identity-removal-is-drained"
-	r.Floor(rule, 14)
+	r.Floor(rule, 9)
 	drainOf := map[string]string{"names": "RouteTerminateProcessID", "aliases": "RouteTerminateAlias", "events": "RouteTerminateEvent", "processes": "RouteTerminatePID"}
 	seq := map[string]int{}
 	for _, f := range funcsOfPkgs(a.P, "node") {
+		if root(f).Name() == "unregisterProcess" {
+			// the process release function is decided as a whole by L2 (delete and drain of every
+			// identity on every path) and by C06.G3o (all deletes before the first notification)
+			continue
+		}
 		eachInstr(f, func(in ssa.Instruction) {
 			cc := callCommon(in)
 			if cc == nil {
